@@ -10,8 +10,8 @@ use mithril_common::messages::{
 };
 use serde_json::{Value, json};
 
-use crate::c11_alter::{Alt, QCtx, alterations};
-use crate::c11_world::{Chain, Fmt, Item, RANGE_LEN, Resp, World, forged_name, honest_response};
+use crate::c11_alter::{Alt, QCtx, SelfMadeSub, alterations};
+use crate::c11_world::{Chain, Fmt, Item, RANGE_LEN, Resp, World, forged_name, honest_response, self_made_sub_proof};
 
 pub const KEY_LEAF_NEIGHBOUR: &str = "C11/item-leaf-and-neighbour-node-concatenation";
 
@@ -282,6 +282,66 @@ fn alt_items(setup: &Setup, fmt: Fmt, beacon: u64, honest: &Resp) -> Vec<Item> {
     v
 }
 
+/// For each of the chain's block ranges: sub-proofs an aggregator can make without the signers —
+/// real `MKTree`s of its own holding items that are not on the chain, with their valid proofs.
+fn self_made_subs(chain: &Chain, fmt: Fmt, honest: &Resp) -> Vec<SelfMadeSub> {
+    let mut v = vec![];
+    for start in [0u64, RANGE_LEN, 2 * RANGE_LEN] {
+        let key = (start, start + RANGE_LEN);
+        let b = chain.blocks.iter().find(|b| *b.block_number == start + 1).expect("block of the range");
+        let b0 = chain.blocks.iter().find(|b| *b.block_number == start).expect("first block of the range");
+        let made_up = match fmt {
+            Fmt::Legacy => Item::Hash(format!("tx-hash-not-on-chain-{start}")),
+            Fmt::TxV2 => Item::Tx { th: format!("tx-hash-not-on-chain-{start}"), bh: b.block_hash.clone(), n: *b.block_number, s: *b.slot_number },
+            Fmt::BlockV2 => Item::Block { bh: format!("block-hash-other-fork-{}", start + 1), n: *b.block_number, s: *b.slot_number },
+        };
+        // a genuine leaf of the range to sit next to the forged one: a proven item of that range if
+        // the honest answer has one, the range's first item otherwise
+        let genuine = honest
+            .parts
+            .iter()
+            .flat_map(|p| p.items.iter())
+            .find(|it| match it {
+                Item::Tx { n, .. } | Item::Block { n, .. } => (start..start + RANGE_LEN).contains(n),
+                Item::Hash(h) => chain.txs_in(start..start + RANGE_LEN).iter().any(|t| &t.transaction_hash == h),
+            })
+            .cloned()
+            .unwrap_or_else(|| match fmt {
+                Fmt::Legacy => Item::Hash(b0.transactions_hashes[0].clone()),
+                Fmt::TxV2 => Item::Tx { th: b0.transactions_hashes[0].clone(), bh: b0.block_hash.clone(), n: start, s: *b0.slot_number },
+                Fmt::BlockV2 => Item::Block { bh: b0.block_hash.clone(), n: start, s: *b0.slot_number },
+            });
+        v.push(SelfMadeSub {
+            key,
+            what: "a self-made sub-proof over a tree holding one item that is not on the chain",
+            items: vec![made_up.clone()],
+            proof: self_made_sub_proof(std::slice::from_ref(&made_up), std::slice::from_ref(&made_up)),
+            also_under_unproven_key: true,
+        });
+        v.push(SelfMadeSub {
+            key,
+            what: "a self-made sub-proof over a tree holding a genuine leaf of the range and an item that is not on the chain (both proven)",
+            items: vec![made_up.clone()],
+            proof: self_made_sub_proof(&[genuine.clone(), made_up.clone()], &[genuine.clone(), made_up.clone()]),
+            also_under_unproven_key: false,
+        });
+        if let Item::Tx { th, .. } = &genuine {
+            // a genuine transaction moved to another block of the range
+            let moved = Item::Tx { th: th.clone(), bh: b.block_hash.clone(), n: *b.block_number, s: *b.slot_number };
+            if moved != genuine {
+                v.push(SelfMadeSub {
+                    key,
+                    what: "a self-made sub-proof over a tree holding a genuine transaction moved to another block",
+                    items: vec![moved.clone()],
+                    proof: self_made_sub_proof(&[made_up.clone(), moved.clone()], std::slice::from_ref(&moved)),
+                    also_under_unproven_key: false,
+                });
+            }
+        }
+    }
+    v
+}
+
 pub struct JobResult {
     pub rep: Report,
     /// classes that violated at depth 1 (for attribution of depth-2 violations)
@@ -349,6 +409,7 @@ pub fn run_job(setup: &Setup, job: &Job) -> JobResult {
         .unwrap_or(0);
     let oblocks = other_blocks(&setup.chain, first_n);
 
+    let self_made = self_made_subs(&setup.chain, fmt, &honest);
     let present: BTreeSet<Item> = honest.parts.iter().flat_map(|p| p.items.clone()).collect();
     let mut nbases = 0;
     for (bi, base) in bases.iter().enumerate() {
@@ -363,6 +424,7 @@ pub fn run_job(setup: &Setup, job: &Job) -> JobResult {
             alt_items: &alts_pool,
             other_blocks: &oblocks,
             range_keys: &range_keys,
+            self_made: &self_made,
         };
         // ---- completeness on the honest answer
         let wire = base.resp.wire();
